@@ -130,7 +130,7 @@ def expr_stateful(e, sf, count_self=True):
 
 
 def has_stateful_arm(p):
-    """class predicate of finding F2: a stateful construct inside a conditional arm"""
+    """(former finding F2, repaired) a stateful construct inside a conditional arm"""
     sf = stateful_funs(p)
     for _, b in all_bodies(p):
         for s in subexprs(b):
@@ -299,9 +299,11 @@ def run_model(exe, cases):
 def _run_batch(exe, todo, timeout):
     text = "\n".join(json.dumps(r) for r in todo) + "\n"
     try:
-        pr = subprocess.run([exe], input=text, stdout=subprocess.PIPE, stderr=subprocess.DEVNULL, text=True,
+        pr = subprocess.run([exe], input=text, stdout=subprocess.PIPE, stderr=subprocess.PIPE, text=True, errors="replace",
                             timeout=timeout, env={**os.environ, "RUST_LOG": "off"})
         out, rc = pr.stdout, pr.returncode
+        if rc != 0 and "overflowed its stack" in (pr.stderr or "")[-2000:]:
+            rc = "stack-overflow"
     except subprocess.TimeoutExpired as ex:
         out = ex.stdout.decode(errors="replace") if isinstance(ex.stdout, bytes) else (ex.stdout or "")
         rc = "timeout"
@@ -454,7 +456,6 @@ def build_sides(ck):
 
 def classes_of(p):
     c = set()
-    if has_stateful_arm(p): c.add("F2")
     if multi_delay_sizes(p): c.add("F3")
     if if_in_tuple(p): c.add("F13")
     return c
